@@ -58,6 +58,7 @@ TraceInit ==
     /\ objs = (IF Traces[tid].replayable THEN Traces[tid].objs ELSE <<>>)
     /\ comp = Traces[tid].comp
     /\ kind = "obj" /\ R = 0
+    /\ text = TextOfAll(objs)
     /\ plain = PlainOf(objs)
     /\ file = (IF comp = 1 /\ Traces[tid].replayable THEN Traces[tid].wire ELSE plain)
     /\ pos = 0 /\ rel = 0 /\ eof = FALSE /\ pend = <<>> /\ acc = <<>> /\ loaded = <<>>
